@@ -1,0 +1,26 @@
+package gocql
+
+// Kinds of the connection trace points (c.vConn calls in conn.go). They name the atomic actions of
+// exec / recv / closeWithError / releaseStream / addCall that the machine-checked connection model in
+// /verif (properties C01, C06) uses as labels. Without the "verif" build tag vConn is empty.
+const (
+	vcAlloc           = 1  // exec: stream reserved and callReq created            a = stream id
+	vcAddCall         = 2  // addCall, holding c.mu                               a = 0 registered, 1 refused: closed, 2 refused: id in use
+	vcTmoClose        = 3  // immediately before close(call.timeout)              a = site: 1 build error, 2 write error, 4 timer, 5 caller ctx, 6 conn ctx
+	vcDelCall         = 4  // exec error paths, holding c.mu, after the guarded delete
+	vcRelease         = 5  // releaseStream, before streams.Clear                 a = stream id
+	vcWriteBegin      = 6  // exec, before writeContext
+	vcWriteEnd        = 7  // exec, after writeContext                            a = 0 ok, 1 ctx error and n == 0, 2 other error; b = n
+	vcLookup          = 8  // recv, holding c.mu, after lookup+delete             a = stream id, b = 0 no call, 1 found, 2 connection closed
+	vcBody            = 9  // recv, after readFrame                               a = 0 ok, 1 error (not net.Error), 2 net.Error
+	vcDelivered       = 10 // recv select: response handed to the caller
+	vcSawTimeout      = 11 // recv select: caller has gone (call.timeout closed)
+	vcRecvCtxDone     = 12 // recv select: connection context done
+	vcCloseBegin      = 13 // closeWithError, holding c.mu                        a = 1 if err != nil, b = 1 if this call set closed
+	vcCloseDelivered  = 14 // closeWithError loop: error handed to the caller
+	vcCloseSawTimeout = 15 // closeWithError loop: caller has gone
+	vcCloseCancel     = 16 // closeWithError, before c.cancel()
+	vcServeExit       = 17 // serve, before closeWithError(err)
+	vcGotResp         = 18 // exec select: received from call.resp, before close(call.timeout)   a = 1 if resp.err != nil
+	vcFinishErr       = 19 // exec: about to return resp.err (after the optional release)
+)
